@@ -8,6 +8,7 @@
 //!   s.c03.find_link ( K st seqs qs ) rs             every k-mer of the 4^K space when K <= 6, else ends / rc / neighbours / random
 //!   g3.valid_exts ( K st nodes valid ) exts         get_valid_exts of every node, no valid set and random valid sets
 //!   g3.max_path / g3.seq_of_path / chk.c03.maxpath  max_path with integer scores, its sequence, checker on both
+//!   g3.max_path_beam + chk.c03.maxpath              max_path_beam for three beam widths, its sequence, the same checker
 //!   chk.c03.walk + g3.seq_of_path                   random walks along reported edges (both sides of a palindromic node used)
 //!   f3.remove_censored(_sharded) + chk.c03.pruned(_sharded)   random censor subsets of real tables
 use crate::c01::{boom_of, Pay, PaySpec};
@@ -197,12 +198,28 @@ pub fn cases<T: KS + Send + Sync>(out: &mut Out, rng0: &mut Rng, tier: &Tier) {
         (false, false) => 5,
     };
     for set in 0..nsets {
-        let reads = read_set(&mut rng, k);
+        let mut reads = read_set(&mut rng, k);
+        // corpus (finding F10): a tip leading into a closed loop - tip . unit . unit . unit[..k] - on which the beam
+        // search of the unrepaired max_path_beam returned a path visiting the loop node twice
+        let tip_cycle = set % 8 == 0;
+        if tip_cycle {
+            let tip: Vec<u8> = (0..k + 3).map(|_| rng.below(4) as u8).collect();
+            let unit: Vec<u8> = (0..k + 5).map(|_| rng.below(4) as u8).collect();
+            let mut r = tip.clone();
+            r.extend_from_slice(&unit);
+            r.extend_from_slice(&unit);
+            r.extend_from_slice(&unit[..k]);
+            reads = vec![r];
+        }
         let stranded = rng.chance(1, 2);
-        let min_obs = match rng.below(6) {
-            0 | 1 => 2,
-            2 => 3,
-            _ => 1,
+        let min_obs = if tip_cycle {
+            1
+        } else {
+            match rng.below(6) {
+                0 | 1 => 2,
+                2 => 3,
+                _ => 1,
+            }
         };
         // the pipeline prunes when the threshold censors k-mers; one in five thresholded graphs is left unpruned
         let prune = min_obs > 1 && !rng.chance(1, 5);
@@ -323,6 +340,22 @@ pub fn cases<T: KS + Send + Sync>(out: &mut Out, rng0: &mut Rng, tier: &Tier) {
             }
         } else {
             out.case("chk.c03.maxpath", l(vec![]), V::Bot);
+        }
+        // ---- max_path_beam (the second best-path query) for a few beam widths: path, its sequence, the same checker
+        for beam in [1usize, 1 + rng.below(3), 4 + rng.below(6)].iter().cloned() {
+            let bp = guard(std::panic::AssertUnwindSafe(move || gr.max_path_beam(beam, |d: &D3| d.0 as f32, |d: &D3| d.1)));
+            out.case(
+                "g3.max_path_beam",
+                l(vec![nu(k), st.clone(), nodes.clone(), nu(beam)]),
+                opt(bp.as_ref().map(|p| path_v(p))),
+            );
+            if let Some(p) = &bp {
+                let sq = guard(std::panic::AssertUnwindSafe(move || gr.sequence_of_path(p.iter()).to_bytes()));
+                match sq {
+                    Some(s) => out.case("chk.c03.maxpath", l(vec![nu(k), st.clone(), nodes.clone(), path_v(p), dna(&s)]), b(true)),
+                    None => out.case("chk.c03.maxpath", l(vec![]), V::Bot),
+                }
+            }
         }
         // ---- random walks along reported edges; a palindromic single-k-mer node may be left through either side
         for _ in 0..3 {
